@@ -10,7 +10,7 @@ from .avm.engine import Engine, HarnessError, Outcome
 from .avm.sym import Bounds, SymAVM
 from .avm.values import Bs, U
 from .common import from_json, to_json
-from .teal.parse import TealSyntaxError, check_program, parse
+from .teal.parse import TealSyntaxError, blocking_complaints, check_program, parse
 from . import tv
 
 OCS = ["no_op", "opt_in", "close_out", "clear_state", "update_application", "delete_application"]
@@ -206,7 +206,7 @@ def router_job(job: Dict[str, Any]) -> Dict[str, Any]:
         except TealSyntaxError as e:
             out["complaints"].append("unparsable %s: %s" % (which, e))
             continue
-        cs = check_program(prog, "A")
+        cs = blocking_complaints(prog, "A")
         if cs:
             out["complaints"] += cs
             out["teal"] = teal
